@@ -515,10 +515,10 @@ def execute(scn, debug=False):
             world.probe('dns-error')
         if scn.get('zone_kind') == 'nodomain':
             world.probe('no-domain')
-        try:
-            relay.kill()
-        except Exception:
-            pass
+        # (no relay.kill() here: RelayPool.kill iterates a *set* of client
+        # greenlets, whose order depends on memory addresses - the one source
+        # of address-dependent ordering found by the determinism self-test;
+        # World.close() kills every greenlet after the log is sealed)
         return {
             'violations': violations[:2], 'digest': world.digest(),
             'nontrivial': any(a.get('behav') for a in scn['attempts']),
